@@ -70,6 +70,7 @@ func runC04(w *mc.Worker) {
 		sp.BalDom, sp.AmtDom = bal, amt
 		runSendSpace(w, &sp, owns, nontriv)
 	}
+	stage("pow2-w1", "source trees of weight <= 1; balances and amounts in {0,1,2^63-1,2^63,2^64-1,2^64,2^64+1,2^65}", 1, 1, pow2Dom(), pow2Dom())
 	if w.Tier == "quick" {
 		stage("w2-d1", "source trees of weight <= 2, nesting depth <= 1; balances {0,1,3,6,-2}^2; amounts {0,1,2,4,7}", 2, 1, balQ, amtQ)
 		stage("w3-d2", "source trees of weight <= 3, nesting depth <= 2; balances {0,1,3,6,-2}^2; amounts {0,1,2,4,7}", 3, 2, balQ, amtQ)
